@@ -10,6 +10,7 @@ import (
 
 	abci "github.com/cometbft/cometbft/abci/types"
 	sdk "github.com/cosmos/cosmos-sdk/types"
+	stakingtypes "github.com/cosmos/cosmos-sdk/x/staking/types"
 	"github.com/ethereum/go-ethereum/common"
 
 	e "haqqsim/engine"
@@ -110,6 +111,8 @@ func (p *evmprof) MandatoryProbes() []string {
 		return []string{"differential_compared", "inner_frame_failed_tx_succeeded", "precompile_call_committed"}
 	case "C02":
 		return []string{"supply_checked", "precompile_call_committed", "value_attached_with_precompile_call"}
+	case "C15":
+		return []string{"precompile_call_committed"}
 	default:
 		return []string{"noninterference_checked", "precompile_call_committed", "grant_spent_by_contract"}
 	}
@@ -167,6 +170,21 @@ func (p *evmprof) Gen(w *e.World, r *e.RNG) e.Step {
 			pat := []*evmprog.Node{
 				{Kind: evmprog.OpSStore, Key: k, Val: cur + 1 + uint64(r.Intn(2))},
 				{Kind: evmprog.OpCall, Target: fmt.Sprintf("fic:%d", fic), Catch: true, Sub: []*evmprog.Node{{Kind: evmprog.OpSStore, Key: k, Val: cur}, {Kind: []int{evmprog.OpRevert, evmprog.OpInvalid}[r.Intn(2)]}}},
+			}
+			pr.Nodes = append(pat, pr.Nodes...)
+		}
+		if f["no_precompile"] != 1 && r.Chance(0.08) {
+			// look at a staking pool, delegate through the precompile, then pay the pool a little
+			pool := common.BytesToAddress(e.ModuleAddr([]string{stakingtypes.BondedPoolName, stakingtypes.NotBondedPoolName}[r.Intn(2)]).Bytes()).Hex()
+			who := fmt.Sprintf("acct:%d", signer)
+			if r.Chance(0.3) {
+				who = fmt.Sprintf("fic:%d", fic)
+			}
+			raw, _ := json.Marshal(&PCall{PC: "staking", M: "delegate", Who: who, Val: r.Intn(len(w.Vals)), Amt: r.Amount(e.BigS("1000000000000000000")).String()})
+			pat := []*evmprog.Node{
+				{Kind: evmprog.OpCall, Target: pool, Catch: true},
+				{Kind: evmprog.OpCall, Target: "pre:staking", Catch: true, Call: raw},
+				{Kind: evmprog.OpCall, Target: pool, Catch: true, Value: big.NewInt(r.Range(1, 1000)).String()},
 			}
 			pr.Nodes = append(pat, pr.Nodes...)
 		}
@@ -452,7 +470,14 @@ func (p *evmprof) c05Differential(w *e.World, signer *e.Account, pr *Prog) *e.Vi
 	}
 	var diff []string
 	for _, s := range e.DiffStoreNames(A.App, B.App) {
-		if s == "evm" && onlyZeroSlotArtefacts(e.DiffStoreEntries(A.App, B.App, "evm")) {
+		// store hashes also cover IAVL node versions: a key that was rewritten with
+		// the value it already had changes the hash but not the content
+		entries := e.DiffStoreEntries(A.App, B.App, s)
+		if len(entries) == 0 {
+			w.Stats.Probe("same_content_different_node_version")
+			continue
+		}
+		if s == "evm" && onlyZeroSlotArtefacts(entries) {
 			w.Stats.Probe("zero_slot_entry_vs_absent")
 			continue
 		}
@@ -520,6 +545,9 @@ func mustJSON(v any) []byte { b, _ := json.Marshal(v); return b }
 
 func (p *evmprof) Exec(w *e.World, st *e.Step) *e.Violation {
 	if v, ok := ExecCommon(w, st); ok {
+		if v == nil && p.id == "C15" && st.K == "blk" {
+			return checkInvariants(w) // the registered accounting invariants after every block
+		}
 		return v
 	}
 	if st.K != "tx" {
@@ -616,6 +644,9 @@ func (p *evmprof) deliverChecked(w *e.World, st *e.Step, bz []byte, pr *Prog, di
 
 func (p *evmprof) Final(w *e.World) *e.Violation {
 	Tail(w, 2)
+	if p.id == "C15" {
+		return checkInvariants(w)
+	}
 	return nil
 }
 
